@@ -248,7 +248,7 @@ theorem restore (m : Cfg α κ ν) (hk : KeyDetermines m) (hr : ReadsOnlyInvalid
   show some (m.f (optsAfter Opts.init ops₁) a) = some (m.f (optsAfter Opts.init ops₂) a)
   rw [h]
 
-/-! ### the code as pinned: outside the region -/
+/-! ### without invalidation: outside the region -/
 
 /-- Every entry was stored by a call recorded in `past`. -/
 def Traced (m : Cfg α κ ν) (past : List (Opts × α)) (c : Cache κ ν) : Prop :=
@@ -877,7 +877,7 @@ theorem sysRun_opts (cfg : SysCfg) (ops : List SysOp) :
     | useMethod k => rfl
     | other => rfl
 
-/-! ### the code as pinned: outside the regions -/
+/-! ### without invalidation: outside the regions -/
 
 def STraced (past : List (Opts × CacheId × Call)) (s : Sys) : Prop :=
   ∀ e ∈ s.get .strToBitstore, ∃ p ∈ past, p.2.1 = .strToBitstore ∧ p.2.2 = e.1 ∧
